@@ -78,7 +78,8 @@ func fromRounded(r dec.Rounded) Expect {
 	set(r.Subnormal, apd.Subnormal)
 	set(r.Underflow, apd.Underflow)
 	set(r.Overflow, apd.Overflow)
-	if r.Inexact || r.Overflow {
+	if r.Inexact && !r.Overflow {
+		// "On finite results Inexact implies Rounded".
 		e.Must |= apd.Rounded
 	}
 	e.MustNot |= divFlags
